@@ -96,10 +96,11 @@ def parse_geff_attr(val, interner: Interner):
     if not isinstance(val, Mapping):
         return None
     try:
-        GeffMetadata.model_validate(val)
+        obj = GeffMetadata.model_validate(val)
     except Exception:
         return None
-    return abstract_meta_json(val, interner)
+    # defaulted fields that the document omits are filled in by the metadata model (C07/C08): abstract the normalised document
+    return abstract_meta_json(obj.model_dump(mode="json"), interner)
 
 
 def _pm(d, interner):
